@@ -989,6 +989,12 @@ def _list_loops(prog, b, lp):
     return out
 
 
+def show_tree(e):
+    from ..prov import show
+
+    return show(e)
+
+
 def rule_every_listed_argument(ctx, kind=None):
     prog = ctx.prog
     scope = query_scope(prog, kind)
@@ -1090,6 +1096,36 @@ def rule_every_listed_argument(ctx, kind=None):
                         if b.local_name(root) is not None and any(dd.bb in blocks for dd in b.defs.get(root, [])):
                             bad = b.local_name(root)
                 r.check(bad is None, "%s|selection@bb%d" % (b.id, s.bb), "selection-switched-off:%s" % bad, "the listed arguments of the component are selected in every iteration", "the selection of the listed arguments of the current component depends on the flag `%s` written in an earlier iteration of the component loop: listed arguments of later components are dropped from the query" % bad, s.loc())
+    # (c) the listed arguments of a component constrain it as soon as there is one: the selection is tested for emptiness, never
+    # compared with the length of the whole list
+    from ..prov import prov as _pv, subterms as _sub
+    from .grounded import _is_call as _isc
+
+    for b in sorted(prog.lib_bodies(), key=lambda x: x.id):
+        fn = prog.enclosing_fn(b)
+        if b is not fn or not (fn.path.startswith("solvers::") or "<solvers::" in fn.path.split(" as ")[0]):
+            continue
+        if scope is not None and b.id not in scope:
+            continue
+        lp = list_params_of(fn)
+        if not lp:
+            continue
+        for sw in switch_sites(b):
+            for e in _pv(prog, b, sw.node["discr"]):
+                while e[0] == "op" and e[1] == "Not":
+                    e = e[2][0]
+                if e[0] == "op" and e[1] in ("Eq", "Ne", "Lt", "Le", "Gt", "Ge") and len(e[2]) == 2:
+                    sides = []
+                    for x in e[2]:
+                        if _isc(x, r"::len$", 1):
+                            inner = x[2][0]
+                            whole = inner[0] == "param" and inner[1] == fn.path and inner[2] in lp and not inner[3]
+                            part = (not whole) and any(t[0] == "param" and t[1] == fn.path and t[2] in lp for t in _sub(inner) if isinstance(t, tuple)) and any(_isc(t, r"Iterator::(filter|filter_map)$") for t in _sub(inner))
+                            sides.append("whole" if whole else ("part" if part else None))
+                        else:
+                            sides.append(None)
+                    if sorted(str(x) for x in sides) == ["part", "whole"]:
+                        r.violation("%s|selection-size" % b.id, "component-needs-all-listed", "the listed arguments found in a component are compared in number with the whole list (%s): a component holding only some of the listed arguments is treated as holding none, and a list spread over several components is never asked about" % show_tree(e)[:100], sw.loc())
     if kind is None:
         r.floor(n_a + n_b, 1, "accumulating list loops and per-component selections")
     else:
